@@ -1,5 +1,6 @@
 (* C09 — the debugger is transparent to the program. *)
 From Lace Require Import Word Machine Isa Vm Asm Dbg DbgProofs.
+From Lace Require DebugText DebugTextProofs.
 Open Scope N_scope.
 
 (** For every program state, every script made only of execution-control and inspection commands
@@ -34,3 +35,15 @@ Theorem C09_tick : forall env script d st, Forall readonly_cmd script ->
   end.
 Proof. exact tick_readonly. Qed.
 Print Assumptions C09_tick.
+
+(** The same for a script given as TEXT (`--command` and/or standard input; model DebugText.v): if
+    every line that the command parser accepts is an execution-control or inspection command —
+    whatever else the text contains: blank lines, rejected lines, any spelling or transport — the
+    session is transparent. *)
+Theorem C09_text_transparent : forall env fuel arg stdin d st t e c,
+  forallb DebugTextProofs.readonly_cmdb (DebugText.script_of_text arg stdin) = true ->
+  sr_kind (session env fuel (DebugText.script_of_text arg stdin) d st t e c) <> 4 ->
+  exists k, same_end (session env fuel (DebugText.script_of_text arg stdin) d st t e c)
+                     (fst (vm_run (e_feat env) k st [])).
+Proof. exact DebugTextProofs.text_transparent. Qed.
+Print Assumptions C09_text_transparent.
